@@ -376,4 +376,143 @@ theorem c01e_phase_sk {l : Level} (hl : l.WF) (hq : c07s_LevelQ l) {sk : Array I
       + negMulR l.n (fun p => (((c1.getD j #[]).getD p 0 : Nat) : Int)) (fun p => sk.getD p 0) c = M c - E c := by ring
   rw [e]
 
+/-! ## E3: decoding a phase Δ(m) + v, `multiply_add_plain` on a whole polynomial, and the end-to-end theorems (BFV) -/
+
+/-- one coefficient: a phase value x ≡ Δ(m) + v (mod Q) with 2t(|v|+1) < Q decodes to m, and its BFV noise
+    t·x − Q·round(t·x/Q) is (t·Δ(m) − Q·m) + t·v, of magnitude ≤ t(|v|+1) -/
+theorem c01e_bfv_decode {Q t m : Nat} {x v : Int} (ht : 2 ≤ t) (hm : m < t) (hv : 2 * t * (v.natAbs + 1) < Q)
+    (hx : x ≡ (deltaM Q t m : Int) + v [ZMOD (Q : Int)]) :
+    Spec.imod (Spec.roundDiv (t * x) Q) t = m ∧ (c04r_bfvNoise t Q x).natAbs ≤ t * (v.natAbs + 1) := by
+  have hq : 0 < Q := by omega
+  obtain ⟨κ, hκ⟩ : ∃ κ : Int, x = (deltaM Q t m : Int) + v - Q * κ := by
+    obtain ⟨k, hk⟩ := (Int.modEq_iff_dvd.mp hx)
+    exact ⟨k, by linarith⟩
+  obtain ⟨e1, e2⟩ := deltaM_err Q t m (by omega)
+  obtain ⟨b1, b2⟩ := c01j_mul_natAbs_bounds t v
+  have hv' : 2 * (t * v.natAbs) + 2 * t < Q := by
+    have : 2 * t * (v.natAbs + 1) = 2 * (t * v.natAbs) + 2 * t := by ring
+    omega
+  push_cast at e1 e2
+  have hv'' : 2 * ((t : Int) * (v.natAbs : Int)) + 2 * t < Q := by exact_mod_cast hv'
+  have h3 : ((t : Int)) / 2 ≤ t := by omega
+  have h4 : ((t : Int) + 1) / 2 ≤ t := by omega
+  have hw : Spec.roundDiv (t * x) Q = (m : Int) - t * κ := by
+    rw [hκ]
+    apply c01j_roundDiv_eq hq
+    · linarith
+    · linarith
+  refine ⟨by rw [hw]; exact c01j_imod_sub_mul m κ hm, ?_⟩
+  unfold c04r_bfvNoise
+  rw [hw, hκ]
+  have e : (t : Int) * ((deltaM Q t m : Int) + v - Q * κ) - (Q : Int) * ((m : Int) - t * κ)
+      = ((t : Int) * (deltaM Q t m : Int) - (Q : Int) * m) + t * v := by ring
+  rw [e]
+  have hb : (((t : Int) * (deltaM Q t m : Int) - (Q : Int) * m) + t * v).natAbs ≤ t * v.natAbs + t := by
+    have : (((t * v.natAbs + t : Nat)) : Int) = (t : Int) * (v.natAbs : Int) + t := by push_cast; ring
+    omega
+  calc _ ≤ t * v.natAbs + t := hb
+    _ = t * (v.natAbs + 1) := by ring
+
+theorem c01e_deltaM_zero (Q : Nat) {t : Nat} (ht : 2 ≤ t) : deltaM Q t 0 = 0 := by
+  unfold deltaM
+  simp only [Nat.mul_zero, Nat.zero_add]
+  exact Nat.div_eq_of_lt (by omega)
+
+/-- `multiplyAddPlain` on a whole canonical polynomial: coefficient i of component j becomes (d + Δ(m_i)) mod q_j
+    (m_i = 0 beyond the plaintext's length) -/
+theorem multiplyAddPlain_spec {l : Level} {Q : Nat} {cdp : Array MulOperand} (h : ScalingOK l Q cdp) {plain : Poly} {dest : RnsPoly}
+    (hp : plain.size ≤ l.n) (hm : ∀ i, i < plain.size → plain.getD i 0 < l.t.value) (hd : RnsCanon l dest) :
+    ∃ r, multiplyAddPlain l cdp (Q % l.t.value) ((l.t.value + 1) / 2) plain dest = .ok r ∧ RnsCanon l r ∧
+      ∀ j, j < l.size → ∀ i, i < l.n →
+        (r.getD j #[]).getD i 0 = ((dest.getD j #[]).getD i 0 + deltaM Q l.t.value (plain.getD i 0)) % (l.q j).value := by
+  have ht2 := h.t2
+  have ht61 := h.t61
+  have hcell : ∀ j, j < l.size → ∀ i, i < plain.size →
+      gz_cell addMod l.t.value (Q % l.t.value) ((l.t.value + 1) / 2) (l.q j) (cdp.getD j default) (plain.getD i 0)
+        ((dest.getD j #[]).getD i 0) =
+      .ok (((dest.getD j #[]).getD i 0 + deltaM Q l.t.value (plain.getD i 0)) % (l.q j).value) := by
+    intro j hj i hi
+    have hmi := hm i hi
+    have hq0 : 0 < (l.q j).value := by have := (h.qwf j hj).two_le; omega
+    rw [gz_cell_eq addMod (by omega) (by omega) (by have := Nat.mod_lt Q (show 0 < l.t.value by omega); omega)]
+    unfold gz_cell2
+    rw [gz_sc_exact (h.qwf j hj) ht2 ht61 hmi (h.op j hj).1 (h.op j hj).2, ok_bind,
+      addMod_exact (h.qwf j hj) ((hd.2 j hj).2 i (by omega)) (Nat.mod_lt _ hq0), Nat.add_mod_mod]
+  have hok := gz_model_ok addMod l cdp (Q % l.t.value) ((l.t.value + 1) / 2) plain dest
+    (fun i j => ((dest.getD j #[]).getD i 0 + deltaM Q l.t.value (plain.getD i 0)) % (l.q j).value) hp hcell
+  rw [← gz_model_add] at hok
+  refine ⟨_, hok, ?_, ?_⟩
+  · refine ⟨by simp, fun j hj => ?_⟩
+    rw [getD_rangeMap' _ _ _ hj]
+    have hq0 : 0 < (l.q j).value := by have := (h.qwf j hj).two_le; omega
+    refine ⟨by simp, fun i hi => ?_⟩
+    rw [getD_rangeMap _ _ hi]
+    split
+    · exact Nat.mod_lt _ hq0
+    · exact (hd.2 j hj).2 i hi
+  · intro j hj i hi
+    rw [getD_rangeMap' _ _ _ hj, getD_rangeMap _ _ hi]
+    split
+    · rfl
+    · rename_i hi'
+      rw [c01e_deltaM_zero Q ht2, Nat.add_zero, Nat.mod_eq_of_lt ((hd.2 j hj).2 i hi)]
+
+theorem c01e_array2 {α : Type} (a : Array α) (h : a.size = 2) (d : α) : a = #[a.getD 0 d, a.getD 1 d] := by
+  obtain ⟨l⟩ := a
+  match l, h with
+  | [x, y], _ => rfl
+
+/-- the plaintext padded with zeros to the degree (what decryption reconstructs before trimming) -/
+def padPlain (n : Nat) (p : Poly) : Poly := Array.ofFn (n := n) fun c => p.getD c.val 0
+
+/-- the margin the end-to-end theorems need at a BFV level with fresh-noise bound B: the BEHZ γ-condition for noise t·(B+1),
+    2γ·t·(B+1) + 2·|q|·Q ≤ Q·γ  (it implies `FreshOK`-style 2t(B+1) < Q) -/
+def FreshEncOK (l : Level) (B : Nat) : Prop :=
+  2 * l.tool.gamma.value * (l.t.value * (B + 1)) + 2 * l.size * Spec.prodL (c01p_qvals l)
+    ≤ Spec.prodL (c01p_qvals l) * l.tool.gamma.value
+
+instance (l : Level) (B : Nat) : Decidable (FreshEncOK l B) := by unfold FreshEncOK; exact inferInstance
+
+/-- from a phase congruence Δ(m) + v (|v| ≤ B) and the margin: the model decrypts (c0, c1) to the padded plaintext -/
+theorem c01e_decrypt_of_phase {l : Level} (hl : l.WF) (hd : DecOK l) {sk : Array Int} (hsk : sk.size = l.n) {c0 c1 : RnsPoly}
+    (h0 : RnsCanon l c0) (h1 : RnsCanon l c1) {plain : Poly} (hm : ∀ i, i < plain.size → plain.getD i 0 < l.t.value)
+    {v : Nat → Int} {B : Nat} (hv : ∀ c, c < l.n → (v c).natAbs ≤ B) (hok : FreshEncOK l B)
+    (hph : ∀ c, c < l.n → (Spec.phase (c01p_qvals l) l.n sk [c0, c1]).getD c 0 ≡
+      (deltaM (Spec.prodL (c01p_qvals l)) l.t.value (plain.getD c 0) : Int) + v c [ZMOD (Spec.prodL (c01p_qvals l) : Int)]) :
+    bfvDecrypt l sk ⟨#[c0, c1], false, 1⟩ = .ok (trimPlain (padPlain l.n plain)) := by
+  have hq := c04r_levelQ_of_decOK hd
+  have hγ : 0 < l.tool.gamma.value := by have := hd.tool.gwf.two_le; omega
+  have ht2 : 2 ≤ l.t.value := by have := hd.tool.twf.two_le; rw [hd.t_eq] at this; exact this
+  have hQ : 0 < Spec.prodL (c01p_qvals l) := by rw [c01p_prodL_qvals hd]; exact hq.bwf.prod_pos
+  have hk0 : 0 < l.size := by rw [← hq.size_eq]; exact hq.bwf.pos
+  have hlt := c04r_lt_of_margin hγ hk0 hQ hok
+  have hmc : ∀ c, plain.getD c 0 < l.t.value := by
+    intro c
+    by_cases hc : c < plain.size
+    · exact hm c hc
+    · have e : plain.getD c 0 = 0 := by simp [Array.getD, hc]
+      rw [e]; omega
+  have hdec : ∀ c, c < l.n →
+      Spec.imod (Spec.roundDiv (l.t.value * (Spec.phase (c01p_qvals l) l.n sk [c0, c1]).getD c 0) (Spec.prodL (c01p_qvals l))) l.t.value
+        = plain.getD c 0 ∧
+      (c04r_bfvNoise l.t.value (Spec.prodL (c01p_qvals l)) ((Spec.phase (c01p_qvals l) l.n sk [c0, c1]).getD c 0)).natAbs
+        ≤ l.t.value * (B + 1) := by
+    intro c hc
+    have hvc := hv c hc
+    have hvm : 2 * l.t.value * ((v c).natAbs + 1) < Spec.prodL (c01p_qvals l) := by
+      have : l.t.value * ((v c).natAbs + 1) ≤ l.t.value * (B + 1) := Nat.mul_le_mul_left _ (by omega)
+      have e : 2 * l.t.value * ((v c).natAbs + 1) = 2 * (l.t.value * ((v c).natAbs + 1)) := by ring
+      omega
+    obtain ⟨d1, d2⟩ := c01e_bfv_decode ht2 (hmc c) hvm (hph c hc)
+    exact ⟨d1, le_trans d2 (Nat.mul_le_mul_left _ (by omega))⟩
+  have hbehz : BehzDecryptOK l (Spec.phase (c01p_qvals l) l.n sk [c0, c1]) :=
+    c04r_behz_of_bound (fun j hj => (hdec j hj).2) hok
+  rw [bfvDecrypt_size2_eq_spec hl hd hsk h0 h1 hbehz]
+  unfold Spec.trim
+  congr 2
+  apply array_ext_getD (by rw [c01p_bfvDecode_size, c01p_phase2_size]) (by simp [padPlain])
+  intro c hc
+  rw [c01p_bfvDecode_getD _ _ _ (by rw [c01p_phase2_size]; exact hc), (hdec c hc).1]
+  simp [padPlain, Array.getD, hc]
+
 end HC
